@@ -23,7 +23,7 @@ mod trace;
 
 pub(crate) mod internals;
 
-use internals::{EphemeronBox, ErasedEphemeronBox, ErasedWeakMapBox, WeakMapBox};
+use internals::{EphemeronBox, ErasedEphemeronBox, ErasedWeakMapBox, GcHeader, WeakMapBox};
 use pointers::{NonTraceable, RawWeakMap};
 use std::{
     cell::{Cell, RefCell},
@@ -219,6 +219,9 @@ struct Unreachables {
 /// 3. Mark again because `Finalize::finalize` can potentially resurrect dead nodes.
 /// 4. Sweep and drop all dead nodes.
 ///
+/// Finalizing a node doesn't release the handles it holds, since the node could survive step 3.
+/// Only the handles held by the nodes that are really swept get released, right before step 4.
+///
 /// A better approach in a more concurrent structure may be to reorder.
 ///
 /// Mark -> Sweep -> Finalize
@@ -243,9 +246,23 @@ impl Collector {
             // SAFETY: All passed pointers are valid, since we won't deallocate until `Self::sweep`.
             unsafe { Self::finalize(unreachables) };
 
+            // Finalizers can clone, move or drop handles, so the roots have to be detected again.
+            // Everything marked up to this point survives. An unmarked node survives if it is the
+            // target of any handle that isn't held by another unmarked node (the handle is a root
+            // or was stored inside a survivor, which won't be traced again), so only count the
+            // handles held by unmarked nodes as non-roots.
+            Self::for_each_header(gc, GcHeader::reset_non_root_count);
+            Self::trace_non_roots(gc);
+
             // Reuse the tracer's already allocated capacity.
             let _final_unreachables =
                 Self::mark_heap(&mut tracer, &gc.strongs, &gc.weaks, &gc.weak_maps);
+
+            // The handles held by the nodes that are still unmarked are about to be dropped
+            // inertly by the sweep. Count them and release them while all their targets are valid.
+            Self::for_each_header(gc, GcHeader::reset_non_root_count);
+            Self::trace_non_roots(gc);
+            Self::for_each_header(gc, GcHeader::release_non_roots);
         }
 
         // SAFETY: The head of our linked list is always valid per the invariants of our GC.
@@ -282,11 +299,16 @@ impl Collector {
     }
 
     fn trace_non_roots(gc: &BoaGc) {
-        // Count all the handles located in GC heap.
+        // Count all the handles located in the unmarked nodes of the GC heap, which are all the nodes
+        // of the heap at the start of a collection.
         // Then, we can find whether there is a reference from other places, and they are the roots.
         for node in &gc.strongs {
             // SAFETY: node must be valid as this phase cannot drop any node.
-            let trace_non_roots_fn = unsafe { node.as_ref() }.trace_non_roots_fn();
+            let node_ref = unsafe { node.as_ref() };
+            if node_ref.is_marked() {
+                continue;
+            }
+            let trace_non_roots_fn = node_ref.trace_non_roots_fn();
 
             // SAFETY: The function pointer is appropriate for this node type because we extract it from it's VTable.
             unsafe {
@@ -297,7 +319,21 @@ impl Collector {
         for eph in &gc.weaks {
             // SAFETY: node must be valid as this phase cannot drop any node.
             let eph_ref = unsafe { eph.as_ref() };
-            eph_ref.trace_non_roots();
+            if !eph_ref.header().is_marked() {
+                eph_ref.trace_non_roots();
+            }
+        }
+    }
+
+    fn for_each_header(gc: &BoaGc, f: impl Fn(&GcHeader)) {
+        for node in &gc.strongs {
+            // SAFETY: node must be valid as this phase cannot drop any node.
+            f(&unsafe { node.as_ref() }.header);
+        }
+
+        for eph in &gc.weaks {
+            // SAFETY: node must be valid as this phase cannot drop any node.
+            f(unsafe { eph.as_ref() }.header());
         }
     }
 
